@@ -88,10 +88,13 @@ class BaseFiles(Generic[Interface]):
         if if_none_match == "*":
             return True
 
-        if if_none_match.startswith("W/"):
-            if_none_match = if_none_match[2:]
-
-        return any(etag == i.strip().strip('"') for i in if_none_match.split(","))
+        for item in if_none_match.split(","):
+            item = item.strip()
+            if item.startswith("W/"):  # weak comparison: the prefix does not matter
+                item = item[2:]
+            if etag == item.strip('"'):
+                return True
+        return False
 
     def if_modified_since(self, last_modified: float, if_modified_since: str) -> bool:
         try:
